@@ -37,11 +37,13 @@ Check(r, idx) ==
     \o (IF r.hang = 0 /\ r.nopressure = 1 /\ r.sc.op \in {"gate.get", "gate.getentry"} /\ r.expired + r.other > 1 THEN <<F(idx, "C06.reported_twice", <<r.expired, r.other, r.sc>>)>> ELSE <<>>)
     \* a write that finds the entry expired while a reader extends the deadline of the node being replaced (op sia-x): the stored value is
     \* known to the policies - the orderings enumerate exactly the entries iteration yields
-    \o (IF r.hang = 0 /\ r.sc.op \in {"sia.setifabsent", "sia.set", "sia.setgate", "sia.cmpgate", "replay.set", "replay.setifabsent", "replay.none"} /\ r.live # r.cold THEN <<F(idx, "C05.present_but_unknown_to_policy", <<r.live, r.cold, r.inserted, r.sc>>)>> ELSE <<>>)
+    \o (IF r.hang = 0 /\ r.sc.op \in {"sia.setifabsent", "sia.set", "sia.setgate", "sia.cmpgate", "replay.set", "replay.setifabsent", "replay.none", "gate.size"} /\ r.live # r.cold THEN <<F(idx, "C05.present_but_unknown_to_policy", <<r.live, r.cold, r.inserted, r.sc>>)>> ELSE <<>>)
     \* ... and the value it replaced reaches both handlers with the same cause (the writer parked between its table computation and the
     \* publication of its event while the reader stores the extended deadline into the replaced node: ops sia-xgate)
     \o (IF r.hang = 0 /\ r.atomiccause # "" /\ r.asynccause # "" /\ r.atomiccause # r.asynccause
         THEN <<F(idx, "C06.causes_differ_between_handlers", <<r.atomiccause, r.asynccause, r.sc>>)>> ELSE <<>>)
+    \* the size policy's victim revived by a reader between the eviction callback and the removal (op gate-size): the maximum is 0
+    \o (IF r.hang = 0 /\ r.sc.op = "gate.size" /\ r.live > 0 THEN <<F(idx, "C04.bound_after_size_eviction_race", <<r.live, r.cold, r.gated, r.sc>>)>> ELSE <<>>)
     \* an entry that is still present after the race is known to the wheel: covered by still_counted / expiration_not_reported above
     \o (IF r.hang = 0 /\ r.visible = 1 /\ r.deadlinepassed = 1 THEN <<F(idx, "C13.visible_after_deadline", r.sc)>> ELSE <<>>)
     \* a read racing the sweep (it only extends the deadline): a sized cache filled right after the race stays within its maximum
